@@ -38,6 +38,8 @@ def kindOf : String → Option Kind
 /-- element sizes of the harness' types (`w12` / `w24`: 12- and 24-byte structs) -/
 def tyBytes : String → Nat
   | "u8" => 1
+  | "u16" => 2
+  | "w3" => 3
   | "u32" => 4
   | "u64" => 8
   | "w12" => 12
